@@ -282,18 +282,24 @@ func allMessages(protoFile *protogen.File) func() []*protogen.Message {
 // The return value is a map[string]string where the key is the import path and the value is the import
 // alias to use in the Go code (extracted from the .proto file's go_package option, if present).
 func getAdditionalImports(protoFile *protogen.File, goPackageForFile map[string]string) func(v interface{}) map[string]string {
+	extensionsOf := getExtensions(protoFile)
 	return func(v interface{}) map[string]string {
 		paths := make(map[string]string)
-		switch tv := v.(type) {
-		case *protogen.Message:
-			for p, alias := range additionalImportsForType(protoFile.GoImportPath, tv, goPackageForFile) {
+		addMessage := func(m *protogen.Message) {
+			for p, alias := range additionalImportsForType(protoFile.GoImportPath, m, goPackageForFile) {
 				paths[p] = alias
 			}
+			// the code generated for m also names the Go types of the extension fields of m
+			for p, alias := range additionalImportsForFields(protoFile.GoImportPath, extensionsOf(m), goPackageForFile) {
+				paths[p] = alias
+			}
+		}
+		switch tv := v.(type) {
+		case *protogen.Message:
+			addMessage(tv)
 		case []*protogen.Message:
 			for _, m := range tv {
-				for p, alias := range additionalImportsForType(protoFile.GoImportPath, m, goPackageForFile) {
-					paths[p] = alias
-				}
+				addMessage(m)
 			}
 		default:
 		}
@@ -307,8 +313,14 @@ func getAdditionalImports(protoFile *protogen.File, goPackageForFile map[string]
 // The return value is a map[string]string where the key is the import path and the value is the import
 // alias to use in the Go code (extracted from the .proto file's go_package option, if present).
 func additionalImportsForType(p protogen.GoImportPath, m *protogen.Message, goPackageForFile map[string]string) map[string]string {
+	return additionalImportsForFields(p, m.Fields, goPackageForFile)
+}
+
+// additionalImportsForFields returns the set of import paths referenced by fields that are
+// distinct from the package declared by p.
+func additionalImportsForFields(p protogen.GoImportPath, fields []*protogen.Field, goPackageForFile map[string]string) map[string]string {
 	res := map[string]string{}
-	for _, fld := range m.Fields {
+	for _, fld := range fields {
 		switch fld.Desc.Kind() {
 		case protoreflect.MessageKind:
 			if fld.Desc.IsMap() {
